@@ -18,6 +18,7 @@ mod run;
 mod shrink;
 mod sys;
 mod util;
+mod w8;
 mod w9;
 mod zoo;
 mod zoo_gen;
